@@ -149,4 +149,12 @@ Section Adaptive.
       replace ((hi - lo) * (eps / (hi - lo + 1)) * (hi - lo + 1)) with ((hi - lo) * eps) by (field; lra). nra. }
     lra.
   Qed.
+  (* used by the correspondence for variances far above the reference: the model value is squeezed between lo and
+     its value at a moderate v0, so no huge exponent is ever evaluated numerically *)
+  Lemma delta_squeeze v0 v impl tol : 0 <= v0 -> v0 <= v -> delta_of lo hi (f v0) - lo <= tol ->
+    lo - tol <= impl -> impl <= lo + tol -> Rabs (delta_of lo hi (f v) - impl) <= 2 * tol.
+  Proof.
+    intros H0 Hv Hs Ha Hb. pose proof (delta_antitone v0 v H0 Hv). pose proof (delta_range v (Rle_trans _ _ _ H0 Hv)).
+    apply Rabs_le. lra.
+  Qed.
 End Adaptive.
